@@ -5,3 +5,4 @@ pub mod c17;
 pub mod c18;
 pub mod c04;
 pub mod c01;
+pub mod c06;
